@@ -26,6 +26,47 @@ OTHERS = ['pub:p', 'pub:p,q', 'cons:0:5', 'cons:2:2', 'cons:-2:9', 'get:1', 'get
 SETUPS = [('100000', 'pub:a,b;pub:c,d'), ('60', 'pub:a,b;pub:c,d'), ('60k', 'pub:a;pub:b;pub:c;pub:d'), ('60', 'pub:a,b,c,d')]
 POST = '-- cons:-2:9 cons:1:9 cons:2:9 cons:3:9 cons:4:9 get:1 get:3 next'
 
+# placements whose calls are functions of the abstract state (Consume with maxCount 1, Get, Publish, Delete): the
+# outcome is compared with the set of outcomes the protocol model of Conc.v allows for that placement
+MPOINTS = {
+    'publish.written': ['pub:x,y', 'pub:x'],
+    'publish.rolled': ['pub:x,y'],
+    'delete.found': ['del:1', 'del:0', 'del:3', 'del:0,1,2,3', 'del:2,3'],
+    'delete.synced': ['del:1', 'del:3', 'del:0,1,2,3', 'del:2,3'],
+    'delete.rewritten': ['del:1', 'del:0', 'del:3', 'del:2,3', 'del:0,1,2,3'],
+}
+MOTHERS = ['pub:p', 'pub:p,q', 'cons:0:1', 'cons:2:1', 'cons:-2:1', 'cons:4:1', 'cons:3:1', 'get:1', 'get:3', 'get:4', 'del:1', 'del:3',
+           'del:0,1', 'del:2,3', 'del:0,1,2,3']
+
+
+def model_placements(rng, tier):
+    lines = []
+    for point, aops in MPOINTS.items():
+        for roll, setup in SETUPS:
+            for a in aops:
+                for b in MOTHERS:
+                    lines.append('cpause %s %s %s %s %s -- get:1' % (roll, setup, point, a, b))
+                pairs = list(itertools.permutations(MOTHERS, 2))
+                k = 8 if tier == 'quick' else 120
+                for b, c in rng.sample(pairs, min(k, len(pairs))):
+                    lines.append('cpause %s %s %s %s %s %s -- get:1' % (roll, setup, point, a, b, c))
+    return lines
+
+
+def norm_outcome(line, detail):
+    """canonical outcome of an implementation run: a Delete refused with NotFound deleted nothing"""
+    f = line.split()
+    inside = f[4:f.index('--')] if '--' in f else f[4:]
+    toks = []
+    for t in detail.split():
+        k, _, v = t.partition('=')
+        if k.startswith('c') and k[1:].isdigit():
+            op = inside[int(k[1:]) - 1]
+            if op.startswith('del:') and v == 'err:NotFound':
+                v = 'm:'
+        toks.append(k + '=' + v)
+    return ' '.join(toks)
+
 
 def placements(rng, tier):
     lines = []
@@ -45,6 +86,9 @@ def c08_extra(pid, tier, seed):
     rng = random.Random(codec.kv_seed(seed, 'c08'))
     race = kv.build_impl(race=True)
     lines = placements(rng, tier)
+    mlines = model_placements(rng, tier)
+    mset = set(mlines)
+    lines = mlines + lines
     cdir = os.path.join(kv.VERIF, 'corpus', pid)
     if os.path.isdir(cdir):
         for f in sorted(os.listdir(cdir)):
@@ -71,11 +115,35 @@ def c08_extra(pid, tier, seed):
                 raise kv.Broken('kvrun conc failed: ' + r.stderr[-1500:])
         with cf.ThreadPoolExecutor(k) as ex:
             list(ex.map(one, paths))
+        # the protocol model on the same placements
+        mp = os.path.join(d, 'model-placements.txt')
+        open(mp, 'w').write('\n'.join(mlines) + '\n')
+        kv.build_model()
+        model = kv.KVMODEL
+        with open(mp + '.model', 'w') as fh:
+            r = subprocess.run([model, 'cconc', mp], stdout=fh, stderr=subprocess.PIPE, text=True, timeout=1800)
+        if r.returncode != 0:
+            raise kv.Broken('kvmodel cconc failed: ' + r.stderr[-1500:])
+        ml = [l.rstrip('\n') for l in open(mp + '.model')]
+        allowed = {}
+        for j in range(0, len(ml) - 1, 2):
+            allowed[ml[j]] = set(x.strip() for x in ml[j + 1][2:].split('||'))
         viol, nlin, nhit, nto = [], 0, 0, 0
+        ncmp, nsingle = 0, 0
         for p in paths:
             a = [l.rstrip('\n') for l in open(p + '.impl')]
             for j in range(0, len(a) - 1, 2):
                 op, r = a[j], a[j + 1]
+                if r.startswith('= ok') and op in mset and ' | ' in r:
+                    got = norm_outcome(op, r.split(' | ', 1)[1])
+                    al = allowed.get(op)
+                    if al is not None and al != {'skip'}:
+                        ncmp += 1
+                        nsingle += 1 if len(al) == 1 else 0
+                        if got not in al:
+                            viol.append(('M', '# correspondence C08: the outcome of this placement is not among those the protocol model '
+                                              '(coq/Conc.v, theorem C08_linearizable) allows\n# placement: %s\n# implementation: %s\n'
+                                              '# model allows: %s\n' % (op, got, ' || '.join(sorted(al)))))
                 if r.startswith('= ok'):
                     nlin += 1
                     nhit += 0 if 'point-not-hit' in r else 1
@@ -90,6 +158,7 @@ def c08_extra(pid, tier, seed):
             if 'DATA RACE' in txt:
                 viol.insert(0, ('P', '# C08 violated: the race detector reports a data race during the concurrent runs\n' + txt[:5000]))
         cov = dict(conc=dict(deterministic_placements=len([l for l in lines if l.startswith('cpause')]),
+                             placements_compared_with_protocol_model=ncmp, of_which_model_outcome_unique=nsingle,
                              free_running_histories=nfree, histories_linearizable=nlin, placements_with_point_hit=nhit,
                              linearizability_search_timeouts=nto, race_reports=len(races),
                              rule='placements: every call of a small alphabet (and sampled pairs) inside the windows publish.written, '
